@@ -79,6 +79,11 @@ def systems(tier):
                 if tier == 'quick' and nb in (2,) and t not in (0, 1):
                     continue
                 d['%s/%d+%d' % (a, nb, t)] = PieceSys(a, nb, t)
+        # longer messages: 6 and 9 blocks (thorough: also 17), pieces of up to 3 blocks
+        for nb in (6, 9) + ((17,) if tier == 'thorough' else ()):
+            if tier == 'quick' and a not in ('md5', 'sha1', 'sha256', 'sha512', 'blake256', 'blake512', 'blake2s', 'blake2b'):
+                continue
+            d['%s/%d+%d' % (a, nb, 1)] = PieceSys(a, nb, 1)
     return d
 
 
@@ -112,8 +117,8 @@ def selftest():
 
 def subchecks():
     return [
-        hsub('pieces', systems, 8,
-             bound='16 hashes (MD4, MD5, SHA-0, SHA-1, SHA-224/256/384/512, SHA-512/224, SHA-512/256, BLAKE-224/256/384/512, BLAKE2s, BLAKE2b) x message of 0..3 (thorough 0..4) blocks + tail in {0,1,blen-lenfield-1,blen-lenfield,blen-1}; events: feed next 0/1/2/3 blocks, close with the rest; BFS over all histories (all compositions, empty pieces at every position), states deduplicated by (chaining value, bit counter, pad flag, position); each piece compared with the one-piece prefix state of a fresh object, each closing digest with the reference digest'),
+        hsub('pieces', systems, 20,
+             bound='16 hashes (MD4, MD5, SHA-0, SHA-1, SHA-224/256/384/512, SHA-512/224, SHA-512/256, BLAKE-224/256/384/512, BLAKE2s, BLAKE2b) x message of 0..3 (thorough 0..4) blocks + tail in {0,1,blen-lenfield-1,blen-lenfield,blen-1}, plus messages of 6 and 9 (thorough 17) blocks + 1 byte; events: feed next 0/1/2/3 blocks, close with the rest; BFS over all histories (all compositions, empty pieces at every position), states deduplicated by (chaining value, bit counter, pad flag, position); each piece compared with the one-piece prefix state of a fresh object, each closing digest with the reference digest'),
         Sub('nilsimsa-cuts', pts_nil, run_nil, engine='D',
             bound='Nilsimsa targets {53,17} x 2 alphabets x every message length 0..12 (thorough 0..16) x every 1-cut and 2-cut position; lengths {35,36,45,67} (thorough 8 lengths up to 100, across the digest threshold steps) x every 1-cut and every 7th second cut'),
     ]
